@@ -9,6 +9,8 @@ OCAMLDIR = os.path.join(CACHE, "ocaml")
 TARGET = os.path.join(CACHE, "cargo-target")
 DVH_DEV = os.path.join(TARGET, "debug", "dvh")
 DVH_REL = os.path.join(TARGET, "release", "dvh")
+TARGET_NAT = os.path.join(CACHE, "cargo-target-native")
+DVH_NAT = os.path.join(TARGET_NAT, "release", "dvh")     # release profile + -C target-cpu=native (cfg(target_feature) paths)
 MODELRUN = os.path.join(OCAMLDIR, "modelrun")
 REPLAYS = os.path.join(VERIF, "replays")
 EVID = os.path.join(VERIF, "evidence")
@@ -113,6 +115,11 @@ def build_harness():
             rc, out = sh("cargo build --offline %s" % prof, cwd=h, timeout=1800)
             if rc:
                 raise BuildError("harness build against /repo (%s)" % (prof or "dev"), out[-6000:])
+        # third configuration: every target feature of this machine enabled, so that code selected by
+        # cfg(target_feature = ..) / is_x86_feature_detected is compiled and exercised too
+        rc, out = sh("CARGO_TARGET_DIR=%s RUSTFLAGS='-C target-cpu=native' cargo build --offline --release" % TARGET_NAT, cwd=h, timeout=1800)
+        if rc:
+            raise BuildError("harness build against /repo (release, target-cpu=native)", out[-6000:])
 
 
 def strip_comments(src):
@@ -338,7 +345,7 @@ TRUSTED_BASE = [
     "axioms: none (every property theorem prints 'Closed under the global context')",
     "hand-written Gallina model DV.M* of /repo/src, tied to the code by differential execution; tools/gen_from_src.py + tools/gen_kernels.py (translator, regenerated every run): constants, ZETAS, Keccak round constants and two-round body are used by the model directly (Gen.v), the scalar kernels of reduce.rs / rounding*.rs are proved equal to the model's (GenK.v, GenKReduce.v, GenKRounding.v), the constants are proved equal in GenCheck.v (built in every check)",
     "extraction: ExtrOcamlBasic only (Extract Inductive bool/option/list/prod/unit/sumbool; no Extract Constant); OCaml 4.13.1; driver.ml/dispatch.ml/main.ml",
-    "Rust harness /verif/harness (path dependency on /repo, feature verif-hooks), python orchestrator",
+    "Rust harness /verif/harness (path dependency on /repo, feature verif-hooks) built three ways: checked (overflow checks + debug assertions), release, release with -C target-cpu=native; python orchestrator",
     "Rust semantics assumed by the model: wrap-around in release = checked value when no overflow panic; arithmetic >>; truncating as-casts",
 ]
 
@@ -443,25 +450,26 @@ def execute(mod, rep, cov, cases, tier, rng, verbose=False):
     lines = [c.line(i) for i, c in enumerate(cases)]
     tmo = getattr(mod, "TIMEOUT", {}).get(tier, 600)
     t0 = time.time()
-    with ThreadPoolExecutor(max_workers=3) as ex:
+    with ThreadPoolExecutor(max_workers=4) as ex:
         mlines = [l for l, c in zip(lines, cases) if "crate-only" not in c.tags]
         fm = ex.submit(run_runner, MODELRUN, mlines, NPROC, tmo)
         fd = ex.submit(run_runner, DVH_DEV, lines, max(2, NPROC // 2), tmo)
         rel_lines = [l for l, c in zip(lines, cases) if not c.skip_release]
         fr = ex.submit(run_runner, DVH_REL, rel_lines, max(2, NPROC // 2), tmo)
-        (m, mh), (d, dh), (r, rh) = fm.result(), fd.result(), fr.result()
+        fn = ex.submit(run_runner, DVH_NAT, rel_lines, max(2, NPROC // 2), tmo)
+        (m, mh), (d, dh), (r, rh), (nat, nh) = fm.result(), fd.result(), fr.result(), fn.result()
     cov["run_s"] = round(time.time() - t0, 2)
     hist, nontrivial = {}, set()
     oracle = getattr(mod, "oracle", None)
     nontriv = getattr(mod, "nontrivial", lambda c, out: bool(c.tags))
     mism = 0
-    for who, hs in (("model", mh), ("crate(dev)", dh), ("crate(release)", rh)):
+    for who, hs in (("model", mh), ("crate(dev)", dh), ("crate(release)", rh), ("crate(release, target-cpu=native)", nh)):
         for i in hs:
             c = cases[i]
             rep.violation("%s did not answer within %ds (hang)" % (who, tmo),
                           {"cases": [case_json(c)], "hang": who}, who != "model")
     for i, c in enumerate(cases):
-        mo, do, ro = m.get(i), d.get(i), r.get(i)
+        mo, do, ro, no = m.get(i), d.get(i), r.get(i), nat.get(i)
         for t in c.tags:
             hist[t] = hist.get(t, 0) + 1
         if verbose:
@@ -483,11 +491,21 @@ def execute(mod, rep, cov, cases, tier, rng, verbose=False):
             bad = "crate (release build) differs from model"
         elif ro is not None and do != ro and do.startswith("ok"):
             bad = "checked and release builds differ"
+        elif ro is not None and no is not None and no != ro:
+            bad = "the release build with -C target-cpu=native (%s) differs from the plain release build" % trunc(no, 80)
         oerr = None
         if oracle and do.startswith("ok"):
             oerr = oracle(c, [parse_out(t) for t in do.split(" ")[1:]])
         elif oracle and do == "panic" and "in_domain" in c.tags:
             oerr = "panic on an input inside the documented domain"
+        if oracle and not oerr and getattr(mod, "ORACLE_ON_RELEASE", False):
+            # properties whose statement does not depend on the build profile: the unchecked builds are judged too
+            for who, xo in (("release build", ro), ("release build with target-cpu=native", no)):
+                if xo is not None and xo != do and xo.startswith("ok"):
+                    e = oracle(c, [parse_out(t) for t in xo.split(" ")[1:]])
+                    if e:
+                        oerr = "%s (%s only; the checked build answers %s)" % (e, who, trunc(do, 40))
+                        break
         if oerr:
             rep.violation("property fails on the crate: " + oerr,
                           {"cases": [case_json(c)], "crate_dev": do, "crate_release": ro, "model": mo}, True)
@@ -496,7 +514,7 @@ def execute(mod, rep, cov, cases, tier, rng, verbose=False):
             failing = c.exact and "in_domain" in c.tags
             rep.violation(bad + (" (the model is proved to meet the property here, so the crate's output is wrong)" if failing
                                  else "; correspondence for %s no longer checks" % c.fn),
-                          {"cases": [case_json(c)], "crate_dev": do, "crate_release": ro, "model": mo,
+                          {"cases": [case_json(c)], "crate_dev": do, "crate_release": ro, "crate_release_native": no, "model": mo,
                            "broken": ["correspondence %s/%s" % (c.fn, c.copy)]}, failing)
     cov["evaluations"] = cov.get("evaluations", 0) + len(cases)
     cov["distinct_nontrivial"] = cov.get("distinct_nontrivial", 0) + len(nontrivial)
